@@ -207,7 +207,11 @@ pub fn render_variant(t: &mut Tape, v: &Variant, p: &Program) -> String {
             }
         }
     }
+    // the spacing variant also re-draws which rule patterns carry the optional blank behind their commas
+    let salt = if v.spacing && crate::engine::gen_version() >= 2 { 1 + t.draw(1 << 20) as u64 } else { 0 };
+    crate::model::isa::TIGHT_SALT.with(|c| c.set(salt));
     let mut s = isa_text(&isa);
+    crate::model::isa::TIGHT_SALT.with(|c| c.set(0));
     for it in &p.items {
         let line = match it {
             Item::Instr(ins) => instr_variant(t, v, &p.isa, ins, &map),
